@@ -23,6 +23,7 @@ LEVEL_TEXT = ('Decides, for all paths / all cursor implementations: each primiti
               'decided.')
 TECHNIQUE += '; next_token guard contract over cursor states'
 TECHNIQUE += '; token matchers also interpreted on texts holding characters whose case mappings change the length of the text (C09.R2b)'
+TECHNIQUE += '; who may skip: every next_token call of the engine lies in a function of the placement table or a private helper of one (R1)'
 LEVEL_NOTE = ('Abstraction for the next_token model: the three skip regexes match disjoint, maximal runs (each eat_* '
               'consumes the whole run of its kind and reports whether it consumed anything).')
 EXPLANATION = ('Static analysis of /repo sources, TatSu not imported. Primitives are executed abstractly with flags '
